@@ -3,6 +3,7 @@
 package harness
 
 import (
+	"errors"
 	"context"
 	"fmt"
 	"math/rand"
@@ -329,6 +330,42 @@ func runNATS(rep *Report, rng *rand.Rand, n int, thorough bool) error {
 	if after > before {
 		rep.violation(Finding{Property: "C14", Clause: "adapter-goroutines-accumulate", Input: fmt.Sprintf("%d sequences", len(seqs)),
 			Impl: fmt.Sprintf("%d natsWatcherAdapter goroutines left after every watcher was stopped", after-before)})
+	}
+	// C15 (faithfulness at the adapter): when the bucket's stream stops answering, what the adapter returns is what the client
+	// returned - same words, same classification (a write that nobody answers is a transient failure: JetStream may be
+	// restarting or moving the stream's leader)
+	if js, jerr := nc.JetStream(); jerr == nil {
+		if derr := js.DeleteStream("KV_" + bucket); derr == nil {
+			k := "c15-gone"
+			_, r1 := nkv.Create(k, []byte("a"))
+			_, a1 := adapter.Create(k, []byte("a"))
+			_, r2 := nkv.Update(k, []byte("b"), 1)
+			_, a2 := adapter.Update(k, []byte("b"), 1)
+			for _, c := range []struct {
+				name     string
+				raw, adp error
+			}{{"create-without-a-stream", r1, a1}, {"update-without-a-stream", r2, a2}} {
+				rep.Cases++
+				rep.Compared++
+				if c.raw == nil || c.adp == nil {
+					rep.diff(Finding{Property: "*", Clause: "nats-no-stream-expected", Input: c.name, Impl: fmt.Sprint(c.raw, " / ", c.adp)})
+					continue
+				}
+				rep.hit("c15:" + c.name)
+				rep.sample(c.name + " => " + c.adp.Error())
+				same := c.raw.Error() == c.adp.Error() && leader.IsPermanentError(c.raw) == leader.IsPermanentError(c.adp) &&
+					leader.IsTransientError(c.raw) == leader.IsTransientError(c.adp)
+				if !same {
+					rep.violation(Finding{Property: "C15", Clause: "adapter-rewrites-the-clients-error", Input: c.name + ": client says " + c.raw.Error(),
+						Impl: fmt.Sprintf("adapter says %q (permanent=%v transient=%v; the client's: permanent=%v transient=%v)", c.adp.Error(),
+							leader.IsPermanentError(c.adp), leader.IsTransientError(c.adp), leader.IsPermanentError(c.raw), leader.IsTransientError(c.raw))})
+				}
+				if errors.Is(c.raw, nats.ErrNoStreamResponse) && (leader.IsPermanentError(c.adp) || !leader.IsTransientError(c.adp)) {
+					rep.violation(Finding{Property: "C15", Clause: "no-responders-transient", Input: c.name + ": " + c.adp.Error(),
+						Impl: fmt.Sprintf("permanent=%v transient=%v", leader.IsPermanentError(c.adp), leader.IsTransientError(c.adp))})
+				}
+			}
+		}
 	}
 	return nil
 }
